@@ -20,6 +20,38 @@ def _reader(rel: str) -> str:
         return fh.read()
 
 
+_DIGESTS: dict | None = None
+
+
+def module_is_pinned(rel: str) -> bool:
+    """is the source file `rel` of the tree under analysis byte-identical to the pinned tree the corpora were written against
+    (corpus_digests.json)?  On a tree where it is not, a variant touching it is skipped - it is the tree that changed, not the
+    machinery that broke."""
+    global _DIGESTS
+    import hashlib
+    import json
+    if _DIGESTS is None:
+        try:
+            with open(os.path.join(os.path.dirname(os.path.dirname(os.path.abspath(__file__))), "corpus_digests.json")) as fh:
+                _DIGESTS = json.load(fh).get("files", {})
+        except OSError:
+            _DIGESTS = {}
+    want = _DIGESTS.get(rel)
+    if want is None:
+        return True
+    try:
+        return hashlib.sha256(_reader(rel).encode("utf-8")).hexdigest() == want
+    except OSError:
+        return False
+
+
+def variant_modules(v) -> list[str]:
+    out = []
+    for fnq, _ in [(v.fn, v.edit)] + list(v.also or []):
+        out.append("src/easynetwork/" + fnq.partition(":")[0].replace(".", "/") + ".py")
+    return out
+
+
 def _findings_for(prop: str, overlay: dict | None):
     import importlib
 
@@ -41,6 +73,8 @@ def _job(args):
     mod = importlib.import_module(f"rules.{prop.lower()}")
     v: Variant = (mod.MUTANTS if kind == "mutant" else mod.BENIGN)[idx]
     t0 = time.time()
+    if not all(module_is_pinned(rel) for rel in variant_modules(v)):
+        return (kind, v.name, "skipped", "the module it edits differs from the pinned tree", 0, 0.0)
     try:
         overlay = build_overlay(_reader, v)
         findings, n_ob = _findings_for(prop, overlay)
@@ -69,6 +103,9 @@ def run_selftest(prop: str, mod, run, seed: int = 0, jobs: int | None = None) ->
     byname.update({("benign", v.name): v for v in benign})
     for kind, name, status, payload, n_ob, dt in results:
         v = byname[(kind, name)]
+        if status == "skipped":
+            rows.append({"variant": name, "kind": kind, "status": "skipped", "why": payload})
+            continue
         if status == "mutation-error":
             problems.append(f"{kind} {name}: cannot be generated on this tree: {payload}")
             rows.append({"variant": name, "kind": kind, "status": status})
@@ -107,12 +144,86 @@ def run_selftest(prop: str, mod, run, seed: int = 0, jobs: int | None = None) ->
         "benign_twins": len(benign),
         "mutants_reported": sum(1 for r in rows if r["kind"] == "mutant" and r.get("reported")),
         "twins_silent": sum(1 for r in rows if r["kind"] == "benign" and r.get("silent")),
+        "skipped_because_the_tree_differs_from_the_pinned_one": sum(1 for r in rows if r.get("status") == "skipped"),
         "rows": rows,
     }
     for r in rows:
+        if r.get("status") == "skipped":
+            continue
         if r["kind"] == "mutant":
             run.ob(f"{prop}.selftest.must-fire", r["variant"], bool(r.get("reported")), reported_by=r.get("rule"))
         else:
             run.ob(f"{prop}.selftest.must-stay-silent", r["variant"], bool(r.get("silent")))
     if problems:
         raise AnalysisError("self-test: " + " ;; ".join(problems))
+
+
+# ----------------------------------------------------------------------------------------------- filed corpora (seeded/, benign/)
+def _corpus_job(args):
+    prop, kind, d = args
+    from .patchov import overlay_for, patch_files
+    patch = os.path.join(d, "patch.diff")
+    try:
+        if not all(module_is_pinned(rel) for rel in patch_files(patch)):
+            return (kind, os.path.basename(d), "skipped", "a file it touches differs from the pinned tree")
+        ov, err = overlay_for(patch)
+        if ov is None:
+            return (kind, os.path.basename(d), "skipped", "the patch does not apply to this tree")
+        findings, _ = _findings_for(prop, ov)
+        return (kind, os.path.basename(d), "ok", findings)
+    except AnalysisError as exc:
+        return (kind, os.path.basename(d), "analysis-error", str(exc))
+    except Exception as exc:  # noqa: BLE001
+        return (kind, os.path.basename(d), "crash", f"{type(exc).__name__}: {exc}")
+
+
+def run_corpora(prop: str, run, jobs: int | None = None) -> None:
+    """the filed corpora: every seeded change of this property must be reported by this property's rules, every behaviour-preserving
+    refactoring must leave them silent (both only where the files they touch are those of the pinned tree)"""
+    root = os.path.dirname(os.path.dirname(os.path.abspath(__file__)))
+    seeded = sorted(os.path.join(root, "seeded", x) for x in os.listdir(os.path.join(root, "seeded")) if x.startswith(prop + "-")) if os.path.isdir(os.path.join(root, "seeded")) else []
+    benign = sorted(os.path.join(root, "benign", x) for x in os.listdir(os.path.join(root, "benign")) if os.path.isdir(os.path.join(root, "benign", x))) if os.path.isdir(os.path.join(root, "benign")) else []
+    work = [(prop, "seeded", d) for d in seeded if os.path.exists(os.path.join(d, "patch.diff"))] + [(prop, "benign", d) for d in benign if os.path.exists(os.path.join(d, "patch.diff"))]
+    if not work:
+        return
+    base = {(f.rule, f.function, f.statement) for f in run.findings}
+    base_rf = {(f.rule, f.function) for f in run.findings}
+    with ProcessPoolExecutor(max_workers=jobs or min(16, len(work))) as ex:
+        results = list(ex.map(_corpus_job, work))
+    honest = set()
+    try:
+        import json
+        honest = set(json.load(open(os.path.join(root, "seeded", "HONEST_MISSES.json"))).get("ids", []))
+    except (OSError, ValueError):
+        pass
+    problems = []
+    stats = {"seeded": 0, "seeded_reported": 0, "benign": 0, "benign_silent": 0, "skipped": 0}
+    for kind, name, status, payload in results:
+        if status == "skipped":
+            stats["skipped"] += 1
+            continue
+        if kind == "seeded":
+            stats["seeded"] += 1
+            hit = status == "analysis-error" or (status == "ok" and any((f[0], f[1], f[2]) not in base and f[0].startswith(prop) for f in payload))
+            if status == "crash":
+                problems.append(f"seeded {name}: engine crashed: {payload}")
+            elif hit:
+                stats["seeded_reported"] += 1
+            elif name not in honest:
+                problems.append(f"seeded change {name} is no longer reported by the rules of {prop}")
+            run.ob(f"{prop}.corpus.seeded-reported", name, bool(hit) or name in honest, honest_miss=name in honest)
+        else:
+            stats["benign"] += 1
+            if status in ("analysis-error", "crash"):
+                problems.append(f"benign refactoring {name}: {status}: {payload[:200]}")
+                run.ob(f"{prop}.corpus.benign-silent", name, False)
+                continue
+            extra = [f for f in payload if (f[0], f[1], f[2]) not in base and (f[0], f[1]) not in base_rf]
+            if extra:
+                problems.append(f"rule alarms on benign refactoring {name}: {[(f[0], f[1].split(':')[-1], f[3][:80]) for f in extra[:2]]}")
+            else:
+                stats["benign_silent"] += 1
+            run.ob(f"{prop}.corpus.benign-silent", name, not extra)
+    run.selftest = dict(getattr(run, "selftest", None) or {}, corpora=stats)
+    if problems:
+        raise AnalysisError("corpora: " + " ;; ".join(problems))
